@@ -129,7 +129,7 @@ func checkAccounting(e *drv.Env, when string) (*refdec.Accounting, *drv.Violatio
 }
 
 // checkBucketStats compares Bucket.Stats() of every bucket (clean read transaction) with the space accounting
-// of the independent decoder: pages by kind, overflow pages, elements, buckets, inline buckets and bytes in use.
+// of the independent decoder: pages by kind, overflow pages, elements, buckets, inline buckets and allocated bytes.
 func checkBucketStats(tx *bolt.Tx, a *refdec.Accounting, when string) *drv.Violation {
 	budget := 60 // Stats is recursive: bound the number of buckets queried per call
 	var walk func(b *bolt.Bucket, m *model.Bucket, path string) *drv.Violation
@@ -148,7 +148,8 @@ func checkBucketStats(tx *bolt.Tx, a *refdec.Accounting, when string) *drv.Viola
 			{"BranchPageN", got.BranchPageN, want.Branch}, {"BranchOverflowN", got.BranchOverflowN, want.BranchOverflow},
 			{"LeafPageN", got.LeafPageN, want.Leaf}, {"LeafOverflowN", got.LeafOverflowN, want.LeafOverflow},
 			{"KeyN", got.KeyN, want.Elements}, {"BucketN", got.BucketN, buckets}, {"InlineBucketN", got.InlineBucketN, inline},
-			{"BranchInuse", got.BranchInuse, want.BranchInuse}, {"LeafInuse", got.LeafInuse, want.LeafInuse}, {"InlineBucketInuse", got.InlineBucketInuse, want.InlineInuse},
+			// the *Inuse byte counts are not compared: they depend on how elements are packed inside a page,
+			// which the version-2 layout leaves open (positions are explicit)
 			{"BranchAlloc", got.BranchAlloc, (want.Branch + want.BranchOverflow) * tx.DB().Info().PageSize},
 			{"LeafAlloc", got.LeafAlloc, (want.Leaf + want.LeafOverflow) * tx.DB().Info().PageSize},
 		} {
